@@ -36,7 +36,15 @@ pub(crate) fn list_of_net_decl_assignments(s: Span) -> IResult<Span, ListOfNetDe
 #[tracable_parser]
 #[packrat_parser]
 pub(crate) fn list_of_param_assignments(s: Span) -> IResult<Span, ListOfParamAssignments> {
-    let (s, a) = list(symbol(","), param_assignment)(s)?;
+    // a param_assignment may lack its value, so in "#(A = 1, foo_t B = 2)" the type name of the next
+    // parameter_port_declaration must not be taken for one more assignment (as in list_of_type_assignments)
+    let (s, a) = list(
+        symbol(","),
+        terminated(
+            param_assignment,
+            peek(alt((symbol(","), symbol(")"), symbol(";")))),
+        ),
+    )(s)?;
     Ok((s, ListOfParamAssignments { nodes: (a,) }))
 }
 
